@@ -118,17 +118,36 @@ def check_textblock(case):
     if src != case['lines']:
         raise Fail('TextBlock does not hold the given lines', 'tb-lines')
     ind = mk(case['cfg'])
+    observe = case.get('observe', False)
+    if observe:
+        before = ''.join(l + '\n' for l in (list(hdr) if hdr else []) + src)
+        if str(tb) != before:
+            raise Fail(f'string form before indenting {str(tb)!r}', 'header')
     if case['via_set']:
         r = tb.set_indentor(ind).indent()
     else:
         r = tb.indent(ind)
     if r is not tb:
         raise Fail('indent() does not return the block itself', 'fluent')
+    got_str = str(tb)  # taken before .lines is looked at again
     compare(tb.lines, spec(case['cfg'], src), src, 'TextBlock.indent')
     want = ''.join(l + '\n' for l in (list(hdr) if hdr else []) + tb.lines)
-    if str(tb) != want:
-        raise Fail(f'string form {str(tb)!r}: header must be unindented and in front; want '
-                   f'{want!r}', 'header')
+    if got_str != want:
+        raise Fail(f'string form {got_str!r}: header must be unindented and in front; want '
+                   f'{want!r}' + (' (the string form had been taken before indenting)' if observe
+                                  else ''), 'header')
+    # repeated indentation of the same block, the string form taken in between
+    cur = list(tb.lines)
+    for k in range(case.get('times', 1) - 1):
+        tb.indent(ind) if not case['via_set'] else tb.indent()
+        nxt = spec(case['cfg'], cur)
+        got_str = str(tb)
+        compare(tb.lines, nxt, cur, f'TextBlock.indent, {k + 2}. time')
+        want = ''.join(l + '\n' for l in (list(hdr) if hdr else []) + tb.lines)
+        if got_str != want:
+            raise Fail(f'string form after indenting {k + 2} times {got_str!r}, want {want!r}',
+                       'header-repeated')
+        cur = list(tb.lines)
     # default indentation of a fresh block: DEFAULT_INDENT_NR_SPACES spaces, no bullets
     tb2 = TextBlock(list(case['lines']))
     tb2.indent()
@@ -164,6 +183,7 @@ def run(ctx):
     hdr_line = st.lists(st.sampled_from(list('ab ') + ['  ']), min_size=1, max_size=5).map(
         ''.join)
     ctx.clause('textblock', st.fixed_dictionaries({
-        'cfg': cfg, 'lines': lines, 'via_set': st.booleans(),
+        'cfg': cfg, 'lines': lines, 'via_set': st.booleans(), 'observe': st.booleans(),
+        'times': st.integers(1, 3),
         'header': st.one_of(st.none(), st.lists(hdr_line, min_size=1, max_size=2))}),
         check_textblock, max(1, n // 2), nontrivial=nontrivial, labels=labels)
